@@ -25,9 +25,8 @@ use crate::quil::Quil;
 use crate::{
     expression::Expression,
     instruction::{
-        CalibrationDefinition, Capture, Delay, Fence, FrameIdentifier, Gate, Instruction,
-        MeasureCalibrationDefinition, Measurement, Pulse, Qubit, RawCapture, SetFrequency,
-        SetPhase, SetScale, ShiftFrequency, ShiftPhase,
+        CalibrationDefinition, Capture, Gate, Instruction, MeasureCalibrationDefinition,
+        Measurement, Qubit, RawCapture,
     },
 };
 
